@@ -17,4 +17,7 @@ TEXTS = {
             "level": "exploration: " + _EXPL, "note": "trusts vlib/layout.py (DESIGN.md appendix B); predicates inside recipes are restricted to field ids, regexes and exact classes"},
     "C05": {"technique": "runtime monitoring: fault planter with known positions vs. recorded struct trails (multiset equality in ALL mode, membership in FIRST, absence in DISABLE)",
             "level": "fault_enumeration-style exploration: " + _EXPL, "note": "independent faults by construction; one error per dict node for missing / unknown keys; unions are leaves"},
+    "C09": {"technique": "runtime monitoring: online trace-specification check of every router decision (hooked _create_router/_send_inner/route_handler) + marker call logs vs. a reference chain-of-responsibility interpreter; exhaustive over short recipes",
+            "level": "exploration (exhaustive for recipes of length <= 2 quick / <= 3 thorough over a 48-provider alphabet, random beyond): " + _EXPL,
+            "note": "the monitor hooks internals from the harness; a zero route count makes the run inconclusive"},
 }
